@@ -270,14 +270,25 @@ func (m *Model) groupTree(g *PathGroup, l *Layout) []*RDir {
 		return out
 	}
 	u := &RDir{Kind: "URL", Keyword: "URL", Params: []string{g.Path}, Origin: "url:" + g.Path}
-	if len(g.PathDefs) > 0 {
-		u.add(pathDir(g.PathDefs))
-	}
-	if g.URLTags != nil {
-		u.add(tagsDir(g.URLTags))
-	}
 	for i := range g.Methods {
 		u.add(m.methodDir(&g.Methods[i], g.Path, false))
+	}
+	// the URL-level Path and Tags directives may stand anywhere among the methods (parentheses are added where the
+	// implicit nesting would otherwise hand them to a method)
+	insert := func(d *RDir) {
+		at := 0
+		if l.R.Intn(3) == 0 {
+			at = l.R.Intn(len(u.Children) + 1)
+		}
+		kids := append([]*RDir(nil), u.Children[:at]...)
+		kids = append(kids, d)
+		u.Children = append(kids, u.Children[at:]...)
+	}
+	if g.URLTags != nil {
+		insert(tagsDir(g.URLTags))
+	}
+	if len(g.PathDefs) > 0 {
+		insert(pathDir(g.PathDefs))
 	}
 	return []*RDir{u}
 }
@@ -323,13 +334,15 @@ func quote(p string) string {
 }
 
 // flatten assigns explicit flags so that the implicit nesting is exactly the intended tree (checked with the reference automaton).
-func decideExplicit(roots []*RDir, l *Layout) {
+func decideExplicit(roots []*RDir, l *Layout, keep bool) {
 	var all []*RDir
 	var walk func(d *RDir)
 	walk = func(d *RDir) {
 		all = append(all, d)
-		d.Explicit = false
-		if len(d.Children) > 0 && d.Kind != "Description" && l.R.Intn(100) < l.ExplicitP {
+		if !keep {
+			d.Explicit = false
+		}
+		if len(d.Children) > 0 && d.Kind != "Description" && !d.Explicit && (!keep || d.Kind == "MACRO") && l.R.Intn(100) < l.ExplicitP {
 			d.Explicit = true
 		}
 		for _, c := range d.Children {
@@ -531,10 +544,14 @@ func (m *Model) Render(l *Layout) *Rendered {
 // RenderTree renders a directive tree (possibly modified by a fault injector).
 func RenderTree(roots []*RDir, l *Layout) *Rendered {
 	rd := &Rendered{Files: map[string][]byte{}, Root: "root.jst", Tokens: map[string][]Token{}, Layout: map[string]string{}}
+	// The parentheses are decided on the in-place tree: a macro body is the text that would stand at the call site, so it
+	// must carry the parentheses which that text needs there. After the abstraction only the new MACRO directives (and
+	// whatever the reference automaton still objects to) get theirs.
+	decideExplicit(roots, l, false)
 	if l.Macros {
 		roots = abstractMacros(roots, l)
+		decideExplicit(roots, l, true)
 	}
-	decideExplicit(roots, l)
 	id := 0
 	var blocks []block
 	var walk func(d *RDir, depth, macro int)
@@ -820,8 +837,13 @@ func abstractMacros(roots []*RDir, l *Layout) []*RDir {
 		return out
 	}
 	roots = visit(nil, roots, 0)
-	// definitions before or after their use
+	// definitions before or after their use; a definition may even precede JSIGHT (macro definitions are taken out before
+	// the "JSIGHT comes first" rule is applied)
 	var out []*RDir
+	if len(defs) > 0 && l.R.Intn(5) == 0 {
+		out = append(out, defs[0])
+		defs = defs[1:]
+	}
 	out = append(out, roots[0])
 	var after []*RDir
 	for _, d := range defs {
